@@ -151,6 +151,7 @@ func c04R2R3(p *Prog, r *Report) {
 		pc.G = true
 		okFill := false
 		desc := ""
+		runningSeen := map[int]bool{}
 		Instrs(up, func(in ssa.Instruction) {
 			st, ok := in.(*ssa.Store)
 			if !ok {
@@ -234,6 +235,74 @@ func c04R2R3(p *Prog, r *Report) {
 				return false
 			}(); nested {
 				okFill = true
+				return
+			}
+			// the same table walked in readout order with a running word counter: two stores per
+			// pixel (error, feedback); the counter's closed form is prev + 2*(c + r*ncols)
+			if running := func() int {
+				idx2, val2 := closeIVs(pc, idx), closeIVs(pc, val)
+				var phis []string
+				for _, sym := range val2.Symbols() {
+					if strings.HasPrefix(sym, "phi#") {
+						phis = append(phis, sym)
+					}
+				}
+				var nrows, ncols string
+				for _, sym := range append(idx2.Symbols(), val2.Symbols()...) {
+					if strings.HasSuffix(basePath(sym), ".nrows") {
+						nrows = sym
+					}
+					if strings.HasSuffix(basePath(sym), ".ncols") {
+						ncols = sym
+					}
+				}
+				if len(phis) != 3 || nrows == "" || ncols == "" {
+					return -1
+				}
+				bound := func(phi string) Poly {
+					ph, _ := pc.symVal[phi].(*ssa.Phi)
+					if ph == nil {
+						if v, ok := pc.symValue(phi); ok {
+							ph, _ = v.(*ssa.Phi)
+						}
+					}
+					if ph == nil {
+						return nil
+					}
+					for _, ref := range *ph.Referrers() {
+						if bo, ok := ref.(*ssa.BinOp); ok && bo.Op == token.LSS && bo.X == ssa.Value(ph) {
+							return pc.Of(bo.Y)
+						}
+					}
+					return nil
+				}
+				two := polyConst(2)
+				for _, rr := range phis {
+					for _, cc := range phis {
+						for _, pv := range phis {
+							if rr == cc || rr == pv || cc == pv {
+								continue
+							}
+							for e := int64(0); e < 2; e++ {
+								wantVal := polyConst(e).Add(polySym(cc).Mul(two)).Add(polySym(rr).Mul(polySym(ncols)).Mul(two)).Add(polySym(pv))
+								wantIdx := polyConst(e).Add(polySym(rr).Mul(two)).Add(polySym(cc).Mul(polySym(nrows)).Mul(two)).Add(polySym(pv))
+								if !val2.Equal(wantVal) || !idx2.Equal(wantIdx) {
+									continue
+								}
+								br, bc := bound(rr), bound(cc)
+								if br != nil && bc != nil && br.Equal(polySym(nrows)) && bc.Equal(polySym(ncols)) {
+									return int(e)
+								}
+							}
+						}
+					}
+				}
+				return -1
+			}(); running >= 0 {
+				runningSeen[running] = true
+				if runningSeen[0] && runningSeen[1] {
+					okFill = true
+				}
 				return
 			}
 			if w == "" || prev == "" || len(val) != 2 {
